@@ -98,10 +98,23 @@ const EE_SERIAL: u64 = 0x1000;
 const OTHER_SERIAL: u64 = 0x0500;
 const BIG_SERIAL: u64 = 0x7FFF_0000;
 
+/// an RFC 6492 message (a list request) and an RFC 8181 message (a list query), written by the library
+pub fn protocol_contents() -> (Vec<u8>, Vec<u8>) {
+    use std::str::FromStr;
+    let prov = rpki::ca::provisioning::Message::list(rpki::ca::idexchange::SenderHandle::from_str("child").unwrap(),
+                                                     rpki::ca::idexchange::RecipientHandle::from_str("parent").unwrap()).to_xml_bytes();
+    let publ = rpki::ca::publication::Message::list_query().to_xml_bytes();
+    (prov.to_vec(), publ.to_vec())
+}
+
 pub fn assemble(pki: &Pki, c: &Value) -> (Vec<u8>, String) {
+    assemble_with(pki, c, &protocol_contents().0)
+}
+
+pub fn assemble_with(pki: &Pki, c: &Value, content: &[u8]) -> (Vec<u8>, String) {
     let f = &c["f"];
     let g = |k: &str| f[k].as_str().unwrap();
-    let content = b"<message xmlns=\"http://www.apnic.net/specs/rescerts/up-down/\" version=\"1\"/>".to_vec();
+    let content = content.to_vec();
     let mut digest = sha256(&content);
     match g("digest") { "bad" => digest[31] ^= 1, "short" => digest.truncate(31), "long" => digest.push(0x11), "empty" => digest.clear(), _ => {} }
     let ct = attribute(OID_AT_CONTENT_TYPE, der::oid(OID_CT_PROTOCOL));
@@ -170,6 +183,7 @@ pub fn replay(args: &[String]) {
     let mut s = Summary::new();
     let pki = Pki::new(2);
     let when = time_of(1);
+    let (prov_xml, publ_xml) = protocol_contents();
     for c in &cases {
         let want = c["accept"].as_bool().unwrap();
         let r = guarded(|| -> (bool, String) {
@@ -205,6 +219,51 @@ pub fn replay(args: &[String]) {
                     }
                 }
             }
+        }
+        // the protocol-level wrappers (ProvisioningCms / PublicationCms: decode always relaxed, then the enclosed XML) and the entry
+        // points that read the clock themselves; for these the instants of the case are placed around the wall clock
+        if wall_usable() {
+            EPOCH.store(3, std::sync::atomic::Ordering::SeqCst);
+            let r = guarded(|| -> Vec<(&'static str, bool, String)> {
+                let mut out = Vec::new();
+                let (bytes, key) = assemble_with(&pki, c, &prov_xml);
+                let key = pki.pubkey(&key);
+                let wnow = time_of(1) + chrono::TimeDelta::try_seconds(1).unwrap();
+                for strict in [false, true] {
+                    out.push((if strict { "SignedMessage::validate:strict" } else { "SignedMessage::validate" }, match SignedMessage::decode(Bytes::from(bytes.clone()), strict) {
+                        Err(e) => (false, format!("decode: {e}")),
+                        Ok(m) => match m.validate(&key) { Ok(()) => (true, String::new()), Err(e) => (false, e.to_string()) },
+                    }));
+                }
+                match rpki::ca::provisioning::ProvisioningCms::decode(&bytes) {
+                    Err(e) => { out.push(("ProvisioningCms::decode", (false, e.to_string()))); }
+                    Ok(m) => {
+                        out.push(("ProvisioningCms::validate_at", match m.validate_at(&key, wnow) { Ok(()) => (true, String::new()), Err(e) => (false, e.to_string()) }));
+                        out.push(("ProvisioningCms::validate", match m.validate(&key) { Ok(()) => (true, String::new()), Err(e) => (false, e.to_string()) }));
+                    }
+                }
+                let (bytes, _) = assemble_with(&pki, c, &publ_xml);
+                match rpki::ca::publication::PublicationCms::decode(&bytes) {
+                    Err(e) => { out.push(("PublicationCms::decode", (false, e.to_string()))); }
+                    Ok(m) => {
+                        out.push(("PublicationCms::validate_at", match m.validate_at(&key, wnow) { Ok(()) => (true, String::new()), Err(e) => (false, e.to_string()) }));
+                        out.push(("PublicationCms::validate", match m.validate(&key) { Ok(()) => (true, String::new()), Err(e) => (false, e.to_string()) }));
+                    }
+                }
+                out.into_iter().map(|(n, (ok, why))| (n, ok, why)).collect()
+            });
+            EPOCH.store(0, std::sync::atomic::Ordering::SeqCst);
+            match r {
+                Err(m) => s.violation("panic", format!("[protocol wrappers] {m}"), c.clone()),
+                Ok(routes) => for (route, got, why) in routes {
+                    if got != want {
+                        s.violation(&format!("{}:{route}", if want { "rejects-valid" } else { "accepts-invalid" }),
+                                    format!("{route}: verdict {got} ({why}), specification {want}"), c.clone());
+                    }
+                },
+            }
+            s.count("wallclock_runs", 1);
+            s.evals(1);
         }
         s.eval_if(!want, &format!("{c}"));
         if s.samples.len() < 3 && s.evaluations % 211 == 5 { s.sample(c.clone()); }
